@@ -1,5 +1,5 @@
 """Which engine parts decide which property."""
-from .engines import deque, codec, stream, pipe, readn, tlv, vt
+from .engines import deque, codec, stream, pipe, readn, tlv, vt, atomic
 
 # part name -> (run(res, work, tier, seed), replay(rep, work))
 PARTS = {
@@ -13,6 +13,7 @@ PARTS = {
     "readn.main": (readn.run_readn, readn.replay),
     "tlv.main": (tlv.run_tlv, tlv.replay),
     "vt.main": (vt.run_vt, vt.replay),
+    "atomic.main": (atomic.run_atomic, atomic.replay),
 }
 
 # property -> parts whose violations (filtered by property id) decide it
@@ -26,6 +27,8 @@ PROPERTY_PARTS = {
     "C08": ["stream.main"],
     "C17": ["readn.main"],
     "C14": ["vt.main"],
+    "C13": ["atomic.main"],
+    "C18": ["atomic.main"],
     "C11": ["tlv.main"],
     "C12": ["tlv.main"],
     "C03": ["pipe.random"],
